@@ -123,6 +123,13 @@ Theorem C10_postproc_matches_paulis :
                                               && (snd (fst x) =? 16) && (snd x =? 4)) gs end) gen_bell_paulis = true.
 Proof. vm_compute. repeat split; reflexivity. Qed.
 
+(* the named bases: rotation_to_basis inverts basis_to_rotation (post-processing recognises
+   the basis the request was made with); 6 rows *)
+Theorem C10_named_bases_roundtrip :
+  forallb (fun x => fst x =? snd x) gen_basis_back = true /\
+  map fst gen_basis_back = map snd gen_enum_EprMeasBasis /\ map fst gen_basis_rot = map snd gen_enum_EprMeasBasis.
+Proof. vm_compute. repeat split; reflexivity. Qed.
+
 (* non-vacuity: three pairs on shifted IDs with three different Bell states; the
    hypotheses of the theorems hold and the traces are non-trivial *)
 Example C10_nonvacuous :
